@@ -40,7 +40,7 @@ RLab(o) == IF o = "o1" THEN "o1r" ELSE IF o = "o2" THEN "o2r" ELSE "xr"
 AllLabels == Orders \cup {RLab(o) : o \in Orders}
 
 InitMkt == [status |-> "OPEN", version |-> 1, inplay |-> FALSE, betdelay |-> 0,
-            bsprec |-> FALSE, closed |-> FALSE, pt |-> 0, removed |-> <<>>]
+            bsprec |-> FALSE, closed |-> FALSE, pt |-> 0, removed |-> <<>>, nactive |-> 2, nwin |-> 1]
 
 Init ==
     /\ s = [clock |-> 0, ord |-> <<>>, trd |-> <<>>, rc |-> <<>>,
@@ -149,7 +149,7 @@ PlaceReq(o) ==
      strat |-> "A", rck |-> Rck, sel |-> 1, side |-> "BACK", otype |-> "LIMIT", price |-> 200,
      size |-> Size, pers |-> "LAPSE", tif |-> "NONE", minfill |-> -1, multi |-> TRUE, reset |-> 0,
      placereset |-> 0, maxtrades |-> 10, maxlive |-> 10, pendorders |-> FALSE, r |-> "ACCEPT",
-     selk |-> "1", client |-> Client]
+     selk |-> "1", client |-> Client, lad |-> "CLASSIC"]
 
 Requests ==
     {PlaceReq(o) : o \in Orders}
